@@ -1426,10 +1426,21 @@ class Interp(object):
                 self.models.with_exit(self, cm)
 
     # ---------------------------------------------------------- loops
-    def _loop_spec(self, env):
+    def _loop_spec(self, env, node=None):
         qn = env.ex.qualname if env.ex is not None else None
-        k = self.loop_counter.get(id(env), 0)
-        self.loop_counter[id(env)] = k + 1
+        # static ordinal: position of this loop among the loops of the function, in source order
+        k = None
+        if env.ex is not None and node is not None:
+            order = getattr(env.ex, '_loop_order', None)
+            if order is None:
+                loops = [n for n in ast.walk(env.ex.node) if isinstance(n, (ast.For, ast.While))]
+                loops.sort(key=lambda n: (n.lineno, n.col_offset))
+                order = {id(n): i for i, n in enumerate(loops)}
+                env.ex._loop_order = order
+            k = order.get(id(node))
+        if k is None:
+            k = self.loop_counter.get(id(env), 0)
+            self.loop_counter[id(env)] = k + 1
         spec = None
         tc = getattr(self, 'top_contract', None)
         if tc is not None and qn == tc.qualname and self.depth == 1:
@@ -1442,7 +1453,7 @@ class Interp(object):
         return k, spec, qn
 
     def s_For(self, node, env):
-        k, spec, qn = self._loop_spec(env)
+        k, spec, qn = self._loop_spec(env, node)
         it = self.resolve_opt(self.eval(node.iter, env))
         concrete_items = None
         try:
@@ -1471,7 +1482,7 @@ class Interp(object):
         self.models.symbolic_for(self, node, env, it, spec, k, qn)
 
     def s_While(self, node, env):
-        k, spec, qn = self._loop_spec(env)
+        k, spec, qn = self._loop_spec(env, node)
         if spec is None:
             # concrete unrolling is only sound if the guard is concrete each time
             n = 0
